@@ -14,7 +14,7 @@ import (
 func init() {
 	register(&PropSpec{
 		ID:       "C08",
-		Patterns: append(codecPatterns(), "./pkg/network", "./pkg/sync", "./pkg/module/http2/hpack", "github.com/TarsCloud/TarsGo/tars/protocol/codec"),
+		Patterns: append(codecPatterns(), "./pkg/network", "./pkg/sync", "./pkg/module/http2/hpack", "github.com/TarsCloud/TarsGo/tars/protocol/codec", "github.com/TarsCloud/TarsGo/tars/protocol/res/requestf"),
 		Explanation: "Same linear bounds analysis as C07 over every xprotocol decoder and matcher, with the obligations of containment: " +
 			"(B1) no index/slice/binary read on peer bytes outside the guarded length (against len, not cap); (B4) every allocation whose size depends on a wire length field (make([]byte,n), GetIoBuffer(n), NewIoBuffer(n)) is dominated by the proof that n bytes have arrived; " +
 			"(B5) decoders contain no panic call, and every call from a decoder into a parser known to panic on corrupt input (mosn.io/pkg/header.DecodeHeader, dubbo-go-hessian2 Decoder, thrift readers, TarsGo codec readers) happens under a deferred recover that dominates the call (in the function or at every call site of it); the connection's read/write loops run under GoWithRecover whose handler closes the connection; worker-pool tasks run under recover; " +
